@@ -44,6 +44,18 @@ func (u *Unit) doCall(st *State, fr *Frame, in *ssa.Call, k Kont) {
 		k(st, u.builtin(st, fr, in, fv.B, args))
 		return
 	}
+	// a package-level function variable of a dependency whose initialiser is
+	// known (read from the pinned dependency source)
+	if un, ok := cc.Value.(*ssa.UnOp); ok {
+		if g, ok := un.X.(*ssa.Global); ok && g.Pkg != nil && g.Pkg.Pkg.Path() == "github.com/go-i2p/crypto/types" && g.Name() == "SHA256" {
+			// var SHA256 = sha256.Sum256
+			if res, ok := u.hashModel(st, args, in.Type()); ok {
+				u.Assumed["A-DEP-SHA256: go-i2p/crypto/types.SHA256 is crypto/sha256.Sum256 (package-level variable, assumed not reassigned)"]++
+				k(st, res)
+				return
+			}
+		}
+	}
 	u.Assumed["dynamic call of an unknown function value"]++
 	k(st, u.havocResult(st, in.Type(), "dyn"))
 }
